@@ -5,6 +5,7 @@
 set -u
 DIR="$1"; ID="$2"; TIER="${3:-quick}"; shift 3 2>/dev/null || shift $#
 SEEDS="${*:-1 2}"
+P="$DIR/patch.diff"; [ -f "$DIR/patch.rebased.diff" ] && P="$DIR/patch.rebased.diff"
 S=/tmp/seedrun
 mkdir -p $S
 if [ ! -d $S/repo ]; then git -C /repo worktree add -q --detach $S/repo HEAD || exit 2; fi
@@ -13,7 +14,7 @@ rsync -a --delete --exclude harness/target --exclude harness/fuzz/target --exclu
 sed -i "s#path = \"/repo\"#path = \"$S/repo\"#" $S/verif/harness/Cargo.toml
 export VERIF_REPO=$S/repo
 cd $S/repo || exit 2
-if git apply --check "$DIR/patch.diff" 2>/dev/null; then git apply "$DIR/patch.diff"; else git apply -3 "$DIR/patch.diff" >/dev/null 2>&1 || { echo "PATCH DOES NOT APPLY: $DIR"; git checkout -- .; exit 2; }; git reset -q; fi
+if git apply --check "$P" 2>/dev/null; then git apply "$P"; else git apply -3 "$P" >/dev/null 2>&1 || { echo "PATCH DOES NOT APPLY: $DIR"; git checkout -- .; exit 2; }; git reset -q; fi
 RES="MISSED"
 for SD in $SEEDS; do
   OUT=$(cd $S/verif && VERIF_SEED=$SD ./check "$ID" "$TIER" 2>&1); RC=$?
